@@ -12,6 +12,18 @@ R-MEMBEROFF  die_member_offset: with DW_AT_data_bit_offset (DWARF 4/5 style) the
 R-BITOFFCONV read_and_convert_DW_at_bit_offset: on a big-endian target the converted value is DW_AT_bit_offset itself, on
              a little-endian one it is 8 * DW_AT_byte_size - DW_AT_bit_offset - DW_AT_bit_size (DWARF 4, section 5.5.6:
              bit_offset counts from the most significant bit of the storage unit); absent attribute => false.
+R-DIESIDE    "different translation units define different types with the same name": whether two same-named type DIEs are
+             one type is decided by the compare_* functions of the reader (compare_dies and its helpers), which take the two
+             DIEs as `l` and `r`.  Every comparison in them pairs a value that derives from `l` only with one that derives
+             from `r` only (provenance through initialisers, assignments and the out-parameters of calls that take one
+             DIE): a value of mixed provenance means one side was read from the other DIE.
+R-VALPDEREF  Dwarf_Attribute::valp points at the form-encoded bytes of an attribute value; it may be compared as a pointer
+             (same place, same value) but a comparison never dereferences it: the first byte of a DW_FORM_strx* index or of
+             a DW_FORM_strp offset says nothing about the string.
+R-OFFSETSRC  the offset of a data member is one quantity, composed by die_member_offset out of up to three attributes; the
+             partial readers it is composed of (die_constant_data_member_location, read_and_convert_DW_at_bit_offset)
+             are called from nowhere else - in particular not from the DIE comparison, which must compare what is
+             recorded (two bit-fields of one storage unit have the same data_member_location).
 R-SIZEBITS   die_size_in_bits: 8 * DW_AT_byte_size when that attribute is present, else DW_AT_bit_size, else false.
 """
 from engine.cfg import strip_casts
@@ -49,8 +61,11 @@ def run(ctx):
     ctx.clause = ("the bit offset the DWARF reader computes for a data member is, symbolically, the value the DWARF standard "
                   "defines from the attributes present (DW_AT_data_bit_offset, or 8 * DW_AT_data_member_location plus the "
                   "endianness-converted DW_AT_bit_offset)")
-    ctx.rules = ["R-MEMBEROFF", "R-BITOFFCONV", "R-SIZEBITS"]
+    ctx.rules = ["R-MEMBEROFF", "R-BITOFFCONV", "R-SIZEBITS", "R-DIESIDE", "R-VALPDEREF", "R-OFFSETSRC"]
     P = ctx.program(UNITS)
+    check_dieside(ctx, P)
+    check_valpderef(ctx, P)
+    check_offsetsrc(ctx, P)
     check_conv(ctx, P)
     check_member(ctx, P)
     check_size(ctx, P)
@@ -204,3 +219,127 @@ def check_size(ctx, P):
                 "present" if has_bytes else "absent", "present" if has_bits else "absent", want), ok, f.loc(),
                 "computed symbolically" if ok else "the function yields %s" % [(sorted(map(str, rv)), sorted(map(str, o)) if o else None) for rv, o in outs])
     ctx.floor("R-SIZEBITS", "worlds", n, 4)
+
+
+
+def _side_provenance(f):
+    ps = f.r["params"]
+    names = {(f.unit.decl(p) or {}).get("n"): p for p in ps}
+    if "l" not in names or "r" not in names:
+        return None
+    prov = {names["l"]: {"l"}, names["r"]: {"r"}}
+    locs = {x.get("d") for x in f.nodes() if x["k"] == "VarDecl"}
+
+    def pv(e):
+        out = set()
+        for y in walk(e):
+            if y["k"] == "DeclRefExpr" and y.get("d") in prov:
+                out |= prov[y["d"]]
+        return out
+    changed = True
+    while changed:
+        changed = False
+        for x in f.nodes():
+            tgt = src = None
+            if x["k"] == "VarDecl" and x.get("c") and x["c"][0] is not None:
+                tgt, src = x.get("d"), pv(x["c"][0])
+            elif x["k"] in ("BinaryOperator", "CompoundAssignOperator") and (x.get("op") or "").endswith("=") and \
+                    x.get("op") not in ("==", "!=", "<=", ">="):
+                l = strip_casts(x["c"][0])
+                if l is not None and l["k"] == "DeclRefExpr" and l.get("d") in locs:
+                    tgt, src = l.get("d"), pv(x["c"][1])
+            if tgt is not None and src and not src <= prov.get(tgt, set()):
+                prov[tgt] = prov.get(tgt, set()) | src
+                changed = True
+            if x["k"] == "CallExpr":
+                args = call_args(x)
+                sided = [s_ for s_ in (pv(a) for a in args) if s_]
+                inp = set().union(*sided) if sided else set()
+                if len(inp) == 1:          # a reader that takes one DIE: its other local arguments are out-parameters
+                    for a in args:
+                        a0 = strip_casts(a)
+                        while a0 is not None and a0["k"] == "UnaryOperator" and a0.get("op") == "&":
+                            a0 = strip_casts(a0["c"][0])
+                        if a0 is not None and a0["k"] == "DeclRefExpr" and a0.get("d") in locs and not inp <= prov.get(a0["d"], set()):
+                            prov[a0["d"]] = prov.get(a0["d"], set()) | inp
+                            changed = True
+    return pv
+
+
+def check_dieside(ctx, P):
+    n = 0
+    for f in sorted(P.all_funcs(), key=lambda x: (x.file, x.l0, x.sig)):
+        if f.dep or f.cfg() is None or not f.n.startswith("compare_") or not f.q.startswith("abigail::dwarf_reader"):
+            continue
+        pv = _side_provenance(f)
+        if pv is None:
+            continue
+        seen = {}
+        for x in f.nodes():
+            if x["k"] in ("BinaryOperator", "CXXOperatorCallExpr") and x.get("op") in ("==", "!=", "<", ">", "<=", ">="):
+                a = call_args(x) if x["k"] == "CXXOperatorCallExpr" else x["c"]
+                if len(a) != 2:
+                    continue
+                pa, pb = pv(a[0]), pv(a[1])
+                if not pa or not pb:
+                    continue
+                n += 1
+                ctx.analysed(f)
+                ok = (pa, pb) in (({"l"}, {"r"}), ({"r"}, {"l"}))
+                txt = expr_str(f, x)[:60]
+                seen[txt] = seen.get(txt, 0) + 1
+                ctx.ob("R-DIESIDE", "%s: `%s`%s compares a value of `l` with a value of `r`" % (f.n, txt, "" if seen[txt] == 1 else " #%d" % seen[txt]),
+                       ok, f.loc(x), "left operand from %s, right operand from %s" % ("/".join(sorted(pa)), "/".join(sorted(pb))) if ok else
+                       "the operands derive from %s and %s: one side of the comparison was read from the other DIE, so two different "
+                       "types can compare equal and be merged" % ("+".join(sorted(pa)), "+".join(sorted(pb))))
+    ctx.floor("R-DIESIDE", "two-sided comparisons in the DIE comparison functions", n, 20)
+
+
+def check_valpderef(ctx, P, rule="R-VALPDEREF"):
+    n = 0
+    bad = 0
+    for f in sorted(P.all_funcs(), key=lambda x: (x.file, x.l0, x.sig)):
+        if f.dep or not f.q.startswith("abigail::dwarf_reader"):
+            continue
+        for x in f.nodes():
+            if x["k"] == "MemberExpr" and (f.decl(x) or {}).get("n") == "valp":
+                n += 1
+                p = f.parent(x)
+                while p is not None and p["k"] in ("ImplicitCastExpr", "ParenExpr"):
+                    p = f.parent(p)
+                if p is not None and p["k"] == "UnaryOperator" and p.get("op") == "*":
+                    q = f.parent(p)
+                    while q is not None and q["k"] in ("ImplicitCastExpr", "ParenExpr"):
+                        q = f.parent(q)
+                    if q is not None and q["k"] == "BinaryOperator" and q.get("op") in ("==", "!=", "<", ">"):
+                        bad += 1
+                        ctx.analysed(f)
+                        ctx.ob(rule, "%s: an attribute value is never compared through the first byte of its encoding #%d" % (f.n, bad), False, f.loc(q),
+                               "`%s` dereferences Dwarf_Attribute::valp: it compares one byte of a form-encoded value (a string-table offset or "
+                               "a DW_FORM_strx index), not the strings - names of different units compare equal" % expr_str(f, q)[:70])
+    ctx.ob(rule, "attribute values are compared as pointers or decoded, never through a dereferenced valp", bad == 0, "",
+           "%d uses of Dwarf_Attribute::valp, %d dereferenced inside a comparison" % (n, bad))
+    ctx.floor(rule, "uses of Dwarf_Attribute::valp", n, 2)
+
+
+
+PARTIAL = ("die_constant_data_member_location", "read_and_convert_DW_at_bit_offset")
+
+
+def check_offsetsrc(ctx, P):
+    n = 0
+    for f in sorted(P.all_funcs(), key=lambda x: (x.file, x.l0, x.sig)):
+        if f.dep or not f.q.startswith("abigail::dwarf_reader"):
+            continue
+        for x in f.nodes():
+            if x["k"] == "CallExpr" and (f.decl(x) or {}).get("n") in PARTIAL:
+                n += 1
+                ctx.analysed(f)
+                ok = f.n == "die_member_offset"
+                k = sum(1 for o in ctx.obligations if o["rule"] == "R-OFFSETSRC" and o["entity"].startswith(f.n + ":"))
+                ctx.ob("R-OFFSETSRC", "%s: call #%d of %s() is part of the offset composition" % (f.n, k + 1, (f.decl(x) or {}).get("n")), ok, f.loc(x),
+                       "inside die_member_offset" if ok else
+                       "%s() reads one of the attributes a member offset is made of and is used here on its own: the value differs from "
+                       "the recorded offset whenever the other attributes contribute (bit-fields), so members at different bit positions "
+                       "compare equal / are recorded wrongly" % (f.decl(x) or {}).get("n"))
+    ctx.floor("R-OFFSETSRC", "calls of the partial offset readers", n, 2)
